@@ -57,6 +57,8 @@ def gen(tier, seed, shard, nshards):
 
 
 def setup(rec):
+    G.self_check()
+    rec.count("oracle:self-check-passed")
     import sempler.utils as U
     if len(G.all_dag_codes(4)) != 543 or len(G.class_table(4)) != 185:
         raise RuntimeError("oracle self-check failed")
@@ -93,6 +95,8 @@ def _compare(U, fn_name, arg, want, family, case, rec, ctx):
         rec.exception_violation("C08:%s-exception" % fn_name, family, case, "%s raised %s" % (fn_name, type(e).__name__), e)
         return None
     got = gmat.masks(res)
+    if sum(want) % 4 == 0:
+        _gc.repeat_after_overwrite(rec, family, case, "C08", fn_name, getattr(U, fn_name), (np.array(arg, copy=True),), res)
     if got != want:
         P = G.Parts(want)
         Q = G.Parts(got)
